@@ -426,8 +426,8 @@ const c02Renderings = 8
 
 func init() {
 	Register(&Prop{
-		ID:   "C02",
-		Rule: "model transactions (0-8 postings, ordinary/(virtual)/[balanced-virtual], 1-3 commodities, @ and @@ costs, exact rational quantities; balanced by construction, unbalanced by an exact residual not below the written precision, one or several amount-less postings), each rendered 8 times with different number notation, sign placement, commodity side and spacing; opened in the real server; expected verdict computed from the model in exact arithmetic. Non-trivial = transaction with >=2 postings; distinct by text hash.",
+		ID:    "C02",
+		Rule:  "model transactions (0-8 postings, ordinary/(virtual)/[balanced-virtual], 1-3 commodities, @ and @@ costs, exact rational quantities; balanced by construction, unbalanced by an exact residual not below the written precision, one or several amount-less postings), each rendered 8 times with different number notation, sign placement, commodity side and spacing; opened in the real server; expected verdict computed from the model in exact arithmetic. Non-trivial = transaction with >=2 postings; distinct by text hash.",
 		Notes: []string{"transactions on which hledger would infer a price (exactly two unbalanced commodities, no cost) are not generated/judged", "renderings avoid the amount forms listed as C03 findings", "reference oracle and message parser are the trusted base"},
 		Cases: func(tier string) int64 {
 			if tier == "thorough" {
